@@ -56,6 +56,7 @@ def run():
     src_mw = open('/repo/packages/milky_way/src/staking.rs').read()
     cf = mirx.struct_fields(src_state, 'Config')
     ncf = mirx.struct_fields(src_state, 'NativeChainConfig')
+    pcf = mirx.struct_fields(src_state, 'ProtocolChainConfig')
     bf = mirx.struct_fields(src_mw, 'Batch')
     vi, statuses = variant_index_factory(src_mw)
     PEND, SUBM, RECV = statuses.index('Pending'), statuses.index('Submitted'), statuses.index('Received')
@@ -167,7 +168,10 @@ def run():
         results.append(dict(name=f'receive[{n}]: sender derivation is evaluated once', result='structural', ok=len(der) == 1, prop='C08'))
         if der:
             want = summ.DERIVE(der[0][1], der[0][2], der[0][3])
-            results.append(check(f'receive[{n}]: sender equals the derived ibc-hooks account', dom + [c, SND != want], prop='C08'))
+            r_ = check(f'receive[{n}]: sender equals derive(current channel, current staker, current prefix)', dom + [c, SND != want], prop='C08')
+            r_['props'] = ['C08', 'C09']
+            r_['ok'] = r_['ok'] and z3.eq(der[0][1], cfg.get(cf.index('protocol_chain_config')).get(pcf.index('ibc_channel_id')).scalar()) and z3.eq(der[0][2], cfg.get(i_native).get(ncf.index('staker_address')).scalar()) and z3.eq(der[0][3], cfg.get(cf.index('protocol_chain_config')).get(pcf.index('account_address_prefix')).scalar())
+            results.append(r_)
         ms = [e for e in p.effects if e[0] == 'msave']
         results.append(dict(name=f'receive[{n}]: exactly one batch save', result='structural', ok=len(ms) == 1, prop='C06'))
         if len(ms) == 1:
